@@ -24,59 +24,6 @@ set_option linter.unusedSectionVars false
 section
 variable {α : Type} [Field α] [LinearOrder α] [IsStrictOrderedRing α] [Lit α] [LawfulLit α]
 
-/-! ### shape of a successful vertex match -/
-
-theorem matchVertexInto_ok {tol : Option (α × DistanceUnit)} {q q' : Json} {f : Field} {cands : List (VCand α)}
-    (h : matchVertexInto tol q f cands = .ok q') :
-    ∃ c rest kvs, cands = c :: rest ∧ validateTolerance tol c = .ok () ∧ q = .obj kvs ∧
-      q' = .obj (insertKv kvs f.name (idJson c.id)) := by
-  unfold matchVertexInto nearestVertex at h
-  cases cands with
-  | nil => simp at h
-  | cons c rest =>
-    simp only [List.head?_cons] at h
-    split at h
-    · cases h
-    · next hv =>
-      obtain ⟨kvs, rfl, rfl⟩ := addField_ok h
-      exact ⟨c, rest, kvs, rfl, hv, rfl, rfl⟩
-
-/-- everything that is true when `RTreePlugin::process` returns `Ok` -/
-theorem vertexProcess_ok {tol : Option (α × DistanceUnit)} {q : Json} {oc dc : List (VCand α)}
-    (h : (vertexProcess tol q oc dc).err = none) :
-    ∃ co ro kvs, oc = co :: ro ∧ validateTolerance tol co = .ok () ∧ q = .obj kvs ∧
-      ((destinationCoordinate q = .ok false ∧
-          (vertexProcess tol q oc dc).query =
-            .obj (insertKv kvs Field.originVertex.name (idJson co.id))) ∨
-       (destinationCoordinate q = .ok true ∧ ∃ cd rd, dc = cd :: rd ∧ validateTolerance tol cd = .ok () ∧
-          (vertexProcess tol q oc dc).query =
-            .obj (insertKv (insertKv kvs Field.originVertex.name (idJson co.id))
-              Field.destinationVertex.name (idJson cd.id)))) := by
-  unfold vertexProcess at h ⊢
-  cases ho : originCoordinate q with
-  | error e => simp [ho] at h
-  | ok _ =>
-    cases hd : destinationCoordinate q with
-    | error e => simp [ho, hd] at h
-    | ok hasDst =>
-      cases hm : matchVertexInto tol q .originVertex oc with
-      | error e => simp [ho, hd, hm] at h
-      | ok q1 =>
-        obtain ⟨co, ro, kvs, rfl, hv, rfl, rfl⟩ := matchVertexInto_ok hm
-        refine ⟨co, ro, kvs, rfl, hv, rfl, ?_⟩
-        cases hasDst with
-        | false => left; simp
-        | true =>
-          right
-          cases hm2 : matchVertexInto tol
-              (.obj (insertKv kvs Field.originVertex.name (idJson co.id))) .destinationVertex dc with
-          | error e => simp [ho, hd, hm, hm2] at h
-          | ok q2 =>
-            obtain ⟨cd, rd, kvs2, rfl, hv2, hq, rfl⟩ := matchVertexInto_ok hm2
-            injection hq with hq
-            subst hq
-            exact ⟨rfl, cd, rd, rfl, hv2, by simp [hm2]⟩
-
 /-! ### nearest vertex -/
 
 /-- C16 (vertex, nearest): when the plugin succeeds, the id written to `origin_vertex` (and to
@@ -155,40 +102,6 @@ theorem vertex_match_eq_scan (l : List (VCand α)) (hs : Sorted VCand.d2 l) : ne
 
 /-! ### vertex tolerance -/
 
-/-- what the code's tolerance test demands of the chosen vertex: a great-circle distance exists and,
-converted into the tolerance's unit, is strictly below the tolerance -/
-def Passes (tol : Option (α × DistanceUnit)) (c : VCand α) : Prop :=
-  match tol with
-  | none => True
-  | some (t, u) => ∃ g, c.gc = some g ∧ DistanceUnit.meters.convert u g < t
-
-theorem validateTolerance_ok_iff (tol : Option (α × DistanceUnit)) (c : VCand α) :
-    validateTolerance tol c = .ok () ↔ Passes tol c := by
-  unfold validateTolerance Passes
-  cases tol with
-  | none => simp
-  | some tu =>
-    obtain ⟨t, u⟩ := tu
-    cases hg : c.gc with
-    | none => simp
-    | some g =>
-      simp only [Option.some.injEq, exists_eq_left']
-      split
-      · next h => simp [not_lt.mpr h]
-      · next h => simp [not_le.mp h]
-
-theorem validateTolerance_beyond_iff (t : α) (u : DistanceUnit) (c : VCand α) :
-    validateTolerance (some (t, u)) c = .error .beyondTolerance ↔
-      ∃ g, c.gc = some g ∧ t ≤ DistanceUnit.meters.convert u g := by
-  unfold validateTolerance
-  cases hg : c.gc with
-  | none => simp
-  | some g =>
-    simp only [Option.some.injEq, exists_eq_left']
-    split
-    · next h => simp [h]
-    · next h => simp [h]
-
 /-- C16 (vertex, tolerance): for a query with well-formed coordinate fields the plugin succeeds exactly
 when the nearest vertex of the origin — and of the destination, if there is one — passes the code's
 comparison `distance (converted into the tolerance unit) < tolerance`; without a configured tolerance it
@@ -234,8 +147,41 @@ theorem vertex_beyond_tolerance_is_error (t : α) (u : DistanceUnit) (kvs : List
   have hv := (validateTolerance_beyond_iff t u c).mpr ⟨g, hg, hbeyond⟩
   simp [vertexProcess, ho, hd, matchVertexInto, nearestVertex, hv]
 
-theorem meters_factor_wf : ∀ u : DistanceUnit, (DistanceUnit.factor .meters u).wf = true := by
-  intro u; cases u <;> decide
+/-
+FULL STATEMENT of the property's tolerance clause for vertices, with `d = convert(g, metres → u)` the
+distance of the nearest vertex in the tolerance's unit:
+
+    d > t  →  error ("beyond the tolerance yields an error and never a match")
+    d ≤ t  →  match ("one within tolerance always matches")
+
+The code's comparison is `d >= t → error`, so the second line fails at `d = t` exactly
+(`vertex_tolerance_boundary_counterexample`; the edge matcher, for what its comparison is worth, uses `<=`).
+Proved: both lines for `d ≠ t`.
+-/
+
+/-- C16 (vertex, tolerance, PARTIAL): strictly beyond is an error, strictly within passes the test; missing:
+the boundary `d = t`, which the code rejects. -/
+theorem vertex_tolerance_partial (t : α) (u : DistanceUnit) (c : VCand α) (g : α) (hg : c.gc = some g) :
+    (t < DistanceUnit.meters.convert u g → validateTolerance (some (t, u)) c = .error .beyondTolerance) ∧
+    (DistanceUnit.meters.convert u g < t → validateTolerance (some (t, u)) c = .ok ()) := by
+  constructor
+  · intro h; exact (validateTolerance_beyond_iff t u c).mpr ⟨g, hg, le_of_lt h⟩
+  · intro h; exact (validateTolerance_ok_iff _ c).mpr ⟨g, hg, h⟩
+
+/-- the boundary: a nearest vertex exactly 100 m away with a tolerance of 100 m is rejected (reproduced on
+the real plugin by corpus case #4 of the harness, oracle key `vertex-match/tolerance-boundary`) -/
+theorem vertex_tolerance_boundary_counterexample :
+    ∃ (t : ℚ) (c : VCand ℚ) (kvs : List (String × Json)),
+      c.gc = some t ∧ originCoordinate (.obj kvs) = .ok () ∧ destinationCoordinate (.obj kvs) = .ok false ∧
+      vertexProcess (some (t, DistanceUnit.meters)) (.obj kvs) [c] [] = ⟨some .beyondTolerance, .obj kvs⟩ := by
+  refine ⟨100, ⟨0, 1 / 1000000, some 100⟩, [("origin_x", .num "0" 0), ("origin_y", .num "0.001" 0)], rfl, ?_, ?_, ?_⟩
+  · simp [originCoordinate, numField, Json.get?, Json.lookup, Field.name, Json.isNumber]
+  · simp [destinationCoordinate, Json.get?, Json.lookup, Field.name]
+  · apply vertex_beyond_tolerance_is_error (g := 100) (hasDst := false)
+    · simp [originCoordinate, numField, Json.get?, Json.lookup, Field.name, Json.isNumber]
+    · simp [destinationCoordinate, Json.get?, Json.lookup, Field.name]
+    · rfl
+    · simp [DistanceUnit.convert, DistanceUnit.factor, Factor.apply]
 
 /-- the same comparison read in metres: the code's table factor `k(u)` (units of `u` per metre) is
 positive, so `convert(g) < t` is `g < t / k(u)`: the tolerance cut-off sits at `t / k(u)` metres -/
@@ -249,10 +195,6 @@ theorem vertex_tolerance_in_metres (t g : α) (u : DistanceUnit) :
   rw [Factor.apply_eq, lt_div_iff₀ hpos]
 
 /-! ### nearest admissible edge -/
-
-/-- passes the road-class filter and the vehicle restrictions -/
-def Admissible (classes : Option (List Nat)) (hasLookup : Bool) (c : ECand α) : Prop :=
-  validClass classes hasLookup c = .ok true ∧ c.vehOk = true
 
 /-- C16 (edge, first admissible): a match is the first admissible candidate of the nearest-first list;
 every candidate before it was inadmissible, and it and all of them passed the code's tolerance test. -/
@@ -307,16 +249,6 @@ theorem edge_match_is_nearest_admissible (r32 : α → α) (tol : Option (α × 
     exact hs2.head_le c' hm
 
 /-! ### edge tolerance — as the code really behaves -/
-
-theorem validClass_error (classes : Option (List Nat)) (hasLookup : Bool) (c : ECand α) (e : Err)
-    (h : validClass classes hasLookup c = .error e) :
-    e = .roadClassMissing ∧ hasLookup = true ∧ classes.isSome ∧ c.cls = none := by
-  unfold validClass at h
-  split at h
-  · split at h
-    · next hc => injection h with h; exact ⟨h.symm, rfl, rfl, hc⟩
-    · cases h
-  · cases h
 
 /-
 FULL STATEMENT of the property's tolerance clause for edges (FALSE of the code, see
@@ -421,12 +353,6 @@ theorem edge_no_tolerance_matches (r32 : α → α) (classes : Option (List Nat)
 
 /-! ### all other fields are left unchanged -/
 
-theorem matchVertexInto_sameOthers {W : List String} {tol : Option (α × DistanceUnit)} {q q' : Json} {f : Field}
-    {cands : List (VCand α)} (hW : f.name ∈ W) (h : matchVertexInto tol q f cands = .ok q') :
-    SameOthers W q q' := by
-  obtain ⟨c, rest, kvs, rfl, _, rfl, rfl⟩ := matchVertexInto_ok h
-  exact ⟨_, rfl, keep_insertKv W _ _ hW kvs⟩
-
 /-- C16 (other fields, vertex matcher): whatever the outcome, every key other than `origin_vertex` /
 `destination_vertex` keeps its value and the other keys keep their relative order; a query that is not a
 JSON object is left as it is. -/
@@ -505,22 +431,6 @@ theorem edge_error_leaves_query (r32 : α → α) (tol : Option (α × DistanceU
             · simp_all
 
 /-! ### the destination is optional -/
-
-theorem destinationCoordinate_false_iff (q : Json) :
-    destinationCoordinate q = .ok false ↔ q.get? "destination_x" = none ∧ q.get? "destination_y" = none := by
-  unfold destinationCoordinate
-  simp only [Field.name]
-  constructor
-  · intro h
-    split at h
-    · next h1 h2 => exact ⟨h1, h2⟩
-    · cases h
-    · cases h
-    · split at h
-      · cases h
-      · split at h <;> cases h
-  · rintro ⟨h1, h2⟩
-    rw [h1, h2]
 
 /-- C16 (destination optional): a query without destination coordinates is matched on its origin alone —
 the outcome does not depend on the destination table, and only `origin_vertex` may change. -/
